@@ -14,9 +14,11 @@ def run(ck, progs):
     ck.rule("C14.4", "users route through the macros: queue selection, local/remote decision with destination rank, remote anti-message destination")
     ck.rule("C14.5", "lp_init and lp_fini iterate exactly the thread's ownership range and run the per-LP init / fini once per iteration")
     ck.rule("C14.6", "each routing macro maps its range onto 0..parts-1: it is (x - start) * parts / total with exactly the parts/start/total its partition_start calls use")
+    ck.rule("C14.7", "the LP table, indexed everywhere with global LP ids, holds n_lps_node entries and is shifted by the first hosted id after its allocation (and back before its release)")
     for cfg, P in progs.items():
         R.check_monotone_routing(ck, P, "C14.1")
         R.check_bounds_from_routing(ck, P, "C14.2")
         R.check_routing_users(ck, P, "C14.4")
         R.check_lp_loops(ck, P, "C14.5")
         R.check_routing_range(ck, P, "C14.6")
+        R.check_lp_table(ck, P, "C14.7")
